@@ -21,6 +21,11 @@ SETS = {   # programs and bindings chosen so that every thread's solo result dif
     "deep": (["(" * 40 + "x + k" + ")" * 40, "(" * 36 + "x * k" + ")" * 36 + " - 1",
               "(" * 44 + "x - k" + ")" * 44, "(" * 38 + "x + k + k" + ")" * 38],
              [{"x": 1, "k": 10}, {"x": 6, "k": 7}, {"x": 50, "k": 8}, {"x": 3, "k": 100}]),
+    # the SAME text in every thread (a worker pool evaluating one policy), own Environment / program / bindings each
+    "same": (["x > k ? x * x + 1 : x - k"] * 4, [{"x": 3, "k": 1}, {"x": 4, "k": 0}, {"x": 0, "k": 5}, {"x": 9, "k": 2}]),
+    # matches() with a different pattern in every thread
+    "regex": (['s.matches("^web-[0-9]+$") && port > 1024', 's.matches("^db")', 's.matches("[0-9]{3}$")', 's.matches("^x+$") || port < 0'],
+              [{"s": "web-12", "port": 8080}, {"s": "db-1", "port": 1}, {"s": "abc123", "port": 2}, {"s": "xxx", "port": 3}]),
     "macro": (["[x, 2].map(y, y * x)", "[x, 3].map(y, y + x)", "[x, 4].map(y, y - x)", "[x, 5].map(y, y + x + x)"],
               [{"x": 2}, {"x": 5}, {"x": 7}, {"x": 11}]),
 }
@@ -41,11 +46,16 @@ OUTSIDE = [
     "granularity: a thread is pre-empted only where a traced source line of src/celpy/* or of the exec-ed <string> code "
     "begins (a step = that line event up to the thread's next one); switches inside a line's byte-code are not explored",
     "tracked shared state only: module globals (incl. writes through a module __dict__), celpy class attributes, and "
-    "attributes/constant-key dict items of any object two workloads both touch, where the receiver is a plain "
-    "name(.attr)* chain; plus the pseudo locations interpreter::{recursionlimit, switchinterval, decimalcontext, locale}, "
+    "attributes / items of any object two workloads both touch, where the receiver is a plain name(.attr)* chain: "
+    "subscript load/store/delete, `in`, and method calls on a dict / list / set (setdefault, update, pop, append, add, get, "
+    "...; key = the constant or name(.attr)* first argument, else the whole container is one location); a mutable object "
+    "that a finished solo run leaves stored at most two hops from a module global / class attribute (e.g. a dict cached in "
+    "a class-level table) is named by that location, so the objects each thread puts there count as one - deeper object "
+    "graphs, objects only passed through such a location and later removed, and mutation through other APIs "
+    "(dict.__setitem__ via operator/functools, deque, user classes' own methods) are not tracked; plus the pseudo locations interpreter::{recursionlimit, switchinterval, decimalcontext, locale}, "
     "written/read where the code loads sys.set/getrecursionlimit, sys.set/getswitchinterval, decimal.setcontext/"
     "getcontext/localcontext, locale.setlocale (decimal contexts are per-thread in CPython: deviations there replay "
-    "benign); other process-wide setters (os.environ, warnings filters, signal, ...) are not tracked; receivers computed otherwise (counted in evidence as unresolved), in-place container methods, "
+    "benign); other process-wide setters (os.environ, warnings filters, signal, ...) are not tracked; receivers computed otherwise (counted in evidence as unresolved), "
     "C-level state (re / functools caches, logging) and everything inside Lark are not modelled",
     "objects reachable only from a thread's own Environment / program / bindings are assumed thread-local (that is the "
     "documented contract); all threads of a scenario use the same runner class (parser specialisation is C05)",
